@@ -139,6 +139,7 @@ class C08(Prop):
             res.digest = sim.digest()
             return res
         m = Machine()
+        states = set()   # abstract states reached (coverage measure only): mode, open blocks, iterator states
         frames = []      # real side: (kind, context manager or query, stack snapshot before enter)
         sig = []
         scratch = _Scratch(run)
@@ -291,6 +292,8 @@ class C08(Prop):
                     if bad:
                         sim.violate("behaviour", {"after": op, "expected_mode": repr(exp), "probe": bad})
                 sig.append((kind, repr(outcome), repr(exp)))
+                states.add((repr(exp), tuple(f[0] for f in frames),
+                            tuple(sorted(s.state for s in run.slots.values() if s.it is not None)), len(run.parked)))
                 sim.event("op", kind, repr(outcome), repr(exp))
                 sim.end_op()
                 if sim.violations:
@@ -324,6 +327,7 @@ class C08(Prop):
         res.nontrivial = sim.counters.get("probe:iter_event_inside_block", 0) + \
             sim.counters.get("probe:iter_finalised_after_block_left", 0) > 0
         res.steps = sim.seq
+        res.states = tuple(states)
         return res
 
     @staticmethod
